@@ -192,7 +192,8 @@ PROPS = {
     "C13": {
         "level": "exploration",
         "tests": [T("TestC13Sweeper", "kv", 1500, 768000, shards=16),
-                  T("TestC13Aging", "kv", 48, 1600, shards=16, qshards=16)],
+                  T("TestC13Aging", "kv", 48, 1600, shards=16, qshards=16),
+                  T("TestC13SlowPass", "kv", 1, 1, enum=True, qshards=2, shards=2)],
         "assumptions": [
             "wall-clock cutoffs are bracketed by the times read before and after the pass; generated timestamps keep a 10 s margin from the cutoff (the exact >= vs > at a nanosecond boundary of the real clock is not forceable)",
             "entries the application writes during the pass may or may not be visited afterwards: only their byte integrity is asserted",
